@@ -14,401 +14,11 @@
    combine, the generators' Screen(...) calls) and [merge_keeps_ids_fresh] shows that Plate.merge re-establishes it for the plate
    ids it has just invalidated.
    Side conditions are those of every reachable call: [screen_wf] / [screen_valid] (true of every constructed screen,
-   C14_constructed_screens), [view_ok] (true of every view the constructors ScreenSubset / Plate return). *)
-From Coq Require Import ZArith List Bool Arith Lia ZifyBool.
-From Batchie Require Import Lib.Sexp Lib.PyRt Generated.Consts Model.Encode Model.Screen Model.Views Model.Retro Model.RetroHoldout
-  Generated.SrcEncode Generated.SrcViews Generated.SrcPlates
-  Proofs.PyRtLemmas Proofs.C01Sort Proofs.C01Encode Proofs.C14Defs Proofs.C14Lists Proofs.C14Unique Proofs.C14Views
-  Proofs.C14ToScreen Proofs.C14Source Proofs.C14SourceHelpers.
-Import ListNotations.
-Open Scope nat_scope.
+   C14_constructed_screens), [view_ok] (true of every view the constructors ScreenSubset / Plate return).
 
-(* ---------------- ids are ranks of the sorted names ---------------- *)
-Definition rank_in (su : list name) (n : name) : Z := Z.of_nat (index_of n su).
-Definition plate_ids_fresh (p : screen) : Prop := exists m, encode_names (map r_plate (s_rows p)) None 6%Z = Ok (s_pids p, m).
-Definition sample_ids_fresh (p : screen) : Prop := exists m, encode_names (map r_sample (s_rows p)) None 6%Z = Ok (s_sids p, m).
-
-Lemma index_of_lt n (su : list name) : In n su -> index_of n su < length su.
-Proof.
-  induction su as [|y su IH]; cbn [In index_of length]; [tauto|]. intros H.
-  destruct (name_eqb n y) eqn:E; [lia|]. destruct H as [->|H]; [rewrite name_eqb_refl in E; discriminate|]. specialize (IH H). lia.
-Qed.
-
-Lemma nth_index_of n (su : list name) : In n su -> nth (index_of n su) su [] = n.
-Proof.
-  induction su as [|y su IH]; cbn [In index_of]; [tauto|]. intros H.
-  destruct (name_eqb n y) eqn:E; [apply name_eqb_eq in E; now subst|].
-  destruct H as [->|H]; [rewrite name_eqb_refl in E; discriminate|]. cbn [nth]. now apply IH.
-Qed.
-
-Lemma index_of_nth (su : list name) : NoDup su -> forall j, j < length su -> index_of (nth j su []) su = j.
-Proof.
-  induction su as [|y su IH]; intros ND j Hj; cbn [length] in Hj; [lia|].
-  inversion ND as [|? ? Hy ND']; subst. destruct j as [|j]; cbn [nth index_of]; [now rewrite name_eqb_refl|].
-  destruct (name_eqb (nth j su []) y) eqn:E.
-  - apply name_eqb_eq in E. exfalso. apply Hy. rewrite <- E. apply nth_In. lia.
-  - f_equal. apply IH; [exact ND' | lia].
-Qed.
-
-Lemma nlookup_number_from su : forall (i : Z) n, In n su ->
-  nlookup (number_from i su) n = Some (i + rank_in su n)%Z.
-Proof.
-  unfold rank_in. induction su as [|y su IH]; intros i n H; cbn [In number_from nlookup index_of] in *; [tauto|].
-  destruct (name_eqb n y) eqn:E; [f_equal; lia|].
-  destruct H as [->|H]; [rewrite name_eqb_refl in E; discriminate|]. rewrite IH by exact H. f_equal. lia.
-Qed.
-
-(* what the encoder answers without a mapping: every name's rank among the sorted distinct names *)
-Lemma fresh_ids_are_ranks names tag ids m : encode_names names None tag = Ok (ids, m) ->
-  ids = map (rank_in (sort_uniq name_cmp names)) names.
-Proof.
-  unfold encode_names, build_nmapping. set (su := sort_uniq name_cmp names).
-  destruct (opt_map_all (nlookup (number_from 0%Z su)) names) as [r|] eqn:E; [|discriminate]. intros [= <- _].
-  apply opt_map_all_Some in E.
-  assert (Hin : forall n, In n names -> In n su) by (intros n Hn; now apply (sort_uniq_In name_cmp name_cmp_spec)).
-  clearbody su. induction E as [|a b l r Hab _ IH]; cbn [map]; [reflexivity|].
-  rewrite nlookup_number_from in Hab by (apply Hin; now left). injection Hab as <-.
-  rewrite IH by (intros n Hn; apply Hin; now right). f_equal.
-Qed.
-
-Lemma ranks_sorted_unique names :
-  let su := sort_uniq name_cmp names in
-  sort_uniq Z.compare (map (rank_in su) names) = map Z.of_nat (seq 0 (length su)).
-Proof.
-  intros su.
-  assert (S : SSorted Z.compare (map Z.of_nat (seq 0 (length su)))) by (rewrite <- zseq_0; apply zseq_sorted).
-  rewrite <- (sort_uniq_of_sorted Z.compare Zcmp_spec _ S).
-  apply (sort_uniq_ext Z.compare Zcmp_spec). intros z. rewrite !in_map_iff. split.
-  - intros (n & <- & Hn). exists (index_of n su). split; [reflexivity|]. apply in_seq.
-    assert (In n su) by (now apply (sort_uniq_In name_cmp name_cmp_spec)). pose proof (index_of_lt n su H). lia.
-  - intros (j & <- & Hj). apply in_seq in Hj. exists (nth j su []). split.
-    + unfold rank_in. f_equal. apply index_of_nth; [apply (sort_uniq_NoDup name_cmp name_cmp_spec) | change (j < length su); lia].
-    + apply (sort_uniq_In name_cmp name_cmp_spec). apply nth_In. change (j < length su). lia.
-Qed.
-
-(* the rows with id j are the rows named by the j-th sorted name *)
-Lemma rank_eqb_name names j :
-  let su := sort_uniq name_cmp names in j < length su ->
-  map (fun x => (x =? Z.of_nat j)%Z) (map (rank_in su) names) = map (fun n => name_eqb n (nth j su [])) names.
-Proof.
-  intros su Hj. rewrite map_map. apply map_ext_in. intros n Hn.
-  assert (Hs : In n su) by (now apply (sort_uniq_In name_cmp name_cmp_spec)).
-  assert (ND : NoDup su) by apply (sort_uniq_NoDup name_cmp name_cmp_spec).
-  unfold rank_in. destruct (name_eqb n (nth j su [])) eqn:E.
-  - apply name_eqb_eq in E. rewrite E, index_of_nth by assumption. apply Z.eqb_refl.
-  - apply Z.eqb_neq. intros Q. apply Nat2Z.inj in Q. rewrite <- Q, nth_index_of, name_eqb_refl in E by exact Hs. discriminate.
-Qed.
-
-(* ---------------- every constructed screen has fresh plate ids (and fresh sample ids when no mapping is passed) ---------------- *)
-Lemma mk_screen_ids_fresh rows ar ctrl tm sm og mg s : mk_screen rows ar ctrl tm sm og mg = Ok s ->
-  plate_ids_fresh s /\ (sm = None -> sample_ids_fresh s).
-Proof.
-  unfold mk_screen.
-  destruct (forallb _ rows); cbn [negb]; [|discriminate].
-  destruct (negb og && mg); [discriminate|].
-  set (rows' := if og then _ else _).
-  destruct (plate_uniform rows'); cbn [negb]; [|discriminate].
-  destruct (match tm with Some _ => _ | None => false end); [discriminate|].
-  destruct (match sm with Some _ => _ | None => false end); [discriminate|].
-  destruct (encode_treatments _ ctrl _) as [[tflat tmm]|]; cbn [res_bind]; [|discriminate].
-  destruct (encode_names (map r_sample rows') _ 6%Z) as [[sids smm]|] eqn:ES; cbn [res_bind]; [|discriminate].
-  destruct (encode_names (map r_plate rows') None 6%Z) as [[pids pmm]|] eqn:EP; cbn [res_bind]; [|discriminate].
-  intros [= <-]. unfold plate_ids_fresh, sample_ids_fresh. cbn [s_rows s_pids s_sids]. split; [now exists pmm|].
-  intros ->. cbn [option_map] in ES. now exists smm.
-Qed.
-
-(* ---------------- list bridges between the two vocabularies ---------------- *)
-Lemma bor_vec_vor a b : bor_vec a b = vor a b.
-Proof. unfold bor_vec. revert b; induction a as [|x a IH]; intros [|y b]; cbn [combine map vor fst snd]; try reflexivity. now rewrite IH. Qed.
-
-Lemma select_vselect {A} sel (l : list A) : select sel l = vselect sel l.
-Proof. reflexivity. Qed.
-
-Lemma with_plate_set_plate nm r : with_plate nm r = set_plate nm r.
-Proof. reflexivity. Qed.
-
-Lemma relabel_vrelabel nm : forall sel rows, length sel = length rows -> relabel sel nm rows = vrelabel sel nm rows.
-Proof.
-  unfold relabel. induction sel as [|b sel IH]; intros [|r rows] H; cbn [length] in H; try discriminate; cbn [combine map vrelabel fst snd];
-    [reflexivity|]. rewrite IH by lia. reflexivity.
-Qed.
-
-Lemma vcount_select {A} sel (l : list A) : length sel = length l -> length (select sel l) = vcount sel.
-Proof.
-  revert l; induction sel as [|b sel IH]; intros [|x l] H; cbn [length] in H; try discriminate; cbn [select vcount]; [reflexivity|].
-  destruct b; cbn [length]; rewrite IH by lia; lia.
-Qed.
-
-Lemma vor_length a b : length a = length b -> length (vor a b) = length a.
-Proof. revert b; induction a as [|x a IH]; intros [|y b] H; cbn [length] in H; try discriminate; cbn [vor length]; [reflexivity|]. now rewrite IH by lia. Qed.
-
-(* ---------------- Screen.plates  =  plates_of ---------------- *)
-(* the plates of a screen object whose plate ids are fresh are, in order, the selection vectors plates_of lists: one per
-   sorted distinct plate NAME; all are views of that object, of the parent's length *)
-Theorem src_plates_is_plates_of : forall (tag : Z) (p : screen), screen_wf p -> plate_ids_fresh p ->
-  exists vs, src_plates (tag, p) = Ok vs /\ map v_sel vs = plates_of (s_rows p) /\
-             Forall (fun v => v_tag v = tag /\ v_parent v = p /\ view_ok v) vs.
-Proof.
-  intros tag p Hwf (m & Hm). rewrite src_plates_is_model. cbn [fst snd]. rewrite (plates_spec tag p Hwf).
-  eexists. split; [reflexivity|]. split.
-  - rewrite map_map. cbn [v_sel]. unfold plates_of, plate_names_of, plate_vec, in_plate.
-    pose proof (fresh_ids_are_ranks _ _ _ _ Hm) as Hr. rewrite Hr.
-    set (names := map r_plate (s_rows p)). set (su := sort_uniq name_cmp names).
-    pose proof (ranks_sorted_unique names) as Hs. cbv zeta in Hs. fold su in Hs. rewrite Hs. rewrite map_map.
-    rewrite <- (map_nth_seq su []) at 2. rewrite map_map. apply map_ext_in. intros j Hj. apply in_seq in Hj.
-    pose proof (rank_eqb_name names j) as He. cbv zeta in He. fold su in He. rewrite He by lia.
-    unfold names. now rewrite map_map.
-  - apply Forall_forall. intros v Hv. apply in_map_iff in Hv. destruct Hv as (pid & <- & _). cbn [v_tag v_parent].
-    repeat split. unfold view_ok. cbn [v_sel v_parent]. rewrite map_length. destruct Hwf as (_ & HP & _). exact HP.
-Qed.
-
-(* ---------------- plate.size = plate_size; Plate.__lt__ = the order of pop ---------------- *)
-Lemma view_size_vcount v : screen_wf (v_parent v) -> view_ok v -> Z.of_nat (view_size v) = plate_size (v_sel v).
-Proof.
-  intros _ Hok. unfold view_size, view_tids, plate_size. f_equal. apply vcount_select. exact Hok.
-Qed.
-
-Theorem src_view_size_is_plate_size : forall v : view, screen_wf (v_parent v) -> view_ok v ->
-  src_view_size v = Ok (plate_size (v_sel v)).
-Proof. intros v Hwf Hok. rewrite src_view_size_is_model. f_equal. now apply view_size_vcount. Qed.
-
-Theorem src_plate_lt_is_vcount_lt : forall a b : view, view_ok a -> view_ok b ->
-  src_plate_lt a b = Ok (vcount (v_sel a) <? vcount (v_sel b)).
-Proof.
-  intros a b Ha Hb. rewrite src_plate_lt_is_model. unfold view_lt, view_size, view_tids.
-  now rewrite !vcount_select by assumption.
-Qed.
-
-(* what [pop] demands of heapq's answer - `forallb (fun w => vcount v <=? vcount w) heap` - is that no plate of the heap is
-   smaller than it in the order Plate.__lt__ defines *)
-Theorem pop_minimality_is_plate_lt : forall (v : view) (heap : list view), view_ok v -> Forall view_ok heap ->
-  forallb (fun w => vcount (v_sel v) <=? vcount w) (map v_sel heap) = true <->
-  (forall w, In w heap -> src_plate_lt w v = Ok false).
-Proof.
-  intros v heap Hv Hh. rewrite forallb_map, forallb_forall. rewrite Forall_forall in Hh. split.
-  - intros H w Hw. rewrite src_plate_lt_is_vcount_lt by auto. specialize (H w Hw). f_equal.
-    apply Nat.ltb_ge. now apply Nat.leb_le.
-  - intros H w Hw. specialize (H w Hw). rewrite src_plate_lt_is_vcount_lt in H by auto. injection H as H.
-    apply Nat.leb_le. now apply Nat.ltb_ge.
-Qed.
-
-(* ---------------- Plate.merge = Retro.merge ---------------- *)
-Lemma encode_names_fresh_total names : exists ids m, encode_names names None 6%Z = Ok (ids, m).
-Proof. destruct (encode_names_total names 6%Z) as ([ids m] & H). now exists ids, m. Qed.
-
-(* self.merge(other) on two plates of one screen object, of the parent's length, whose union is not empty (true of any two
-   plates Screen.plates returned): it succeeds; the merged plate's selection vector and the parent's rows afterwards are
-   the two components of Retro.merge; the parent keeps its identity, everything but the rows and the plate ids is untouched;
-   the plate ids are fresh again; the result is a view of the new parent of the right length *)
-Theorem src_plate_merge_is_retro_merge : forall self other : view,
-  v_tag other = v_tag self -> view_ok self -> length (v_sel other) = length (v_sel self) ->
-  screen_wf (v_parent self) -> vselect (vor (v_sel self) (v_sel other)) (s_rows (v_parent self)) <> [] ->
-  exists v', src_plate_merge self other = Ok v' /\
-    v_sel v' = fst (merge (v_sel self) (v_sel other) (s_rows (v_parent self))) /\
-    s_rows (v_parent v') = snd (merge (v_sel self) (v_sel other) (s_rows (v_parent self))) /\
-    v_tag v' = v_tag self /\ plate_ids_fresh (v_parent v') /\ screen_wf (v_parent v') /\ view_ok v' /\
-    s_sids (v_parent v') = s_sids (v_parent self) /\ s_tids (v_parent v') = s_tids (v_parent self) /\
-    s_arity (v_parent v') = s_arity (v_parent self) /\ s_ctrl (v_parent v') = s_ctrl (v_parent self).
-Proof.
-  intros self other Ht Hok Hl Hwf Hne. rewrite src_plate_merge_is_model. unfold view_merge, merge.
-  rewrite Ht, Z.eqb_refl. cbn [negb]. rewrite bor_vec_vor, select_vselect.
-  set (sel := vor (v_sel self) (v_sel other)) in *. set (p := v_parent self) in *.
-  destruct Hwf as (H1 & H2 & H3 & H4).
-  assert (Hsel : length sel = length (s_rows p)).
-  { unfold sel. rewrite vor_length by (symmetry; exact Hl). unfold view_ok in Hok. fold p in Hok. congruence. }
-  destruct (vselect sel (s_rows p)) as [|r0 rest] eqn:E; [now elim Hne|].
-  rewrite Hsel, Nat.eqb_refl. cbn [negb].
-  destruct (encode_names_fresh_total (map r_plate (relabel sel (r_plate r0) (s_rows p)))) as (ids & m & Hm).
-  rewrite Hm. cbn [res_bind fst]. eexists. split; [reflexivity|]. cbn [v_sel v_parent v_tag fst snd with_rows_pids s_rows s_sids s_tids s_arity s_ctrl].
-  rewrite relabel_vrelabel by exact Hsel.
-  split; [reflexivity|]. split; [reflexivity|]. split; [reflexivity|].
-  split. { exists m. unfold with_rows_pids. cbn [s_rows s_pids]. rewrite <- relabel_vrelabel by exact Hsel. exact Hm. }
-  split.
-  { unfold screen_wf, screen_size, with_rows_pids. cbn [s_sids s_tids s_pids s_rows s_arity]. split; [exact H1|]. split.
-    - rewrite (encode_names_length _ _ _ _ _ Hm), map_length, relabel_length by exact Hsel. exact H3.
-    - split; [|exact H4]. rewrite <- relabel_vrelabel, relabel_length by exact Hsel. exact H3. }
-  split. { unfold view_ok, screen_size, with_rows_pids. cbn [v_sel v_parent s_tids]. rewrite Hsel. exact H3. }
-  repeat split.
-Qed.
-
-(* ---------------- Screen.combine = combine_screens ---------------- *)
-Definition res_rows (r : result screen) : result (list row) := dor s <- r; Ok (s_rows s).
-
-Lemma mk_screen_not_uniform rows ar ctrl : forallb (fun r => Nat.eqb (length (r_treats r)) ar) rows = true ->
-  plate_uniform rows = false -> mk_screen rows ar ctrl None None true true = Err 2%Z.
-Proof. intros H1 H2. unfold mk_screen. cbn [negb andb]. rewrite H1, H2. reflexivity. Qed.
-
-(* what a screen built by the constructor without mappings satisfies: the invariants the other theorems of this file ask for *)
-Definition fresh_screen (s : screen) : Prop :=
-  screen_wf s /\ screen_valid s /\ plate_ids_fresh s /\ sample_ids_fresh s.
-
-Lemma mk_screen_fresh rows ar ctrl s : mk_screen rows ar ctrl None None true true = Ok s -> fresh_screen s.
-Proof.
-  intros H. split; [eapply mk_screen_wf; exact H|]. split; [eapply mk_screen_valid; exact H|].
-  destruct (mk_screen_ids_fresh _ _ _ _ _ _ _ _ H) as [A B]. split; [exact A | now apply B].
-Qed.
-
-(* two screens of one arity and control name (true of every pair the wrappers and generators combine: both descend from
-   one screen): Screen.combine answers the constructor's refusal of a mixed plate (tag 2) exactly when [construct] does, and
-   otherwise a fresh screen whose rows are the two row lists one after the other *)
-Theorem src_screen_combine_is_combine_screens : forall a b : pyscreen,
-  screen_valid (snd a) -> screen_valid (snd b) -> s_arity (snd b) = s_arity (snd a) -> s_ctrl (snd b) = s_ctrl (snd a) ->
-  res_rows (src_screen_combine a b) = combine_screens (s_rows (snd a)) (s_rows (snd b)) /\
-  (forall s, src_screen_combine a b = Ok s ->
-     fresh_screen s /\ s_arity s = s_arity (snd a) /\ s_ctrl s = s_ctrl (snd a)).
-Proof.
-  intros [ta a] [tb b]. cbn [snd]. intros [Va _] [Vb _] Har Hc. rewrite src_screen_combine_is_model. cbn [snd].
-  unfold screen_combine, combine_screens, construct. rewrite Hc, name_eqb_refl, Har, Nat.eqb_refl. cbn [negb].
-  assert (HA : forallb (fun r => Nat.eqb (length (r_treats r)) (s_arity a)) (s_rows a ++ s_rows b) = true).
-  { rewrite forallb_app, Va. rewrite <- Har. now rewrite Vb. }
-  split.
-  - destruct (plate_uniform (s_rows a ++ s_rows b)) eqn:E.
-    + destruct (mk_screen_total (s_rows a ++ s_rows b) (s_arity a) (s_ctrl a) (conj HA E)) as (s & Hs). rewrite Hs.
-      unfold res_rows. cbn [res_bind]. now rewrite (proj1 (mk_screen_rows _ _ _ _ Hs)).
-    + now rewrite (mk_screen_not_uniform _ _ _ HA E).
-  - intros s Hs. split; [eapply mk_screen_fresh; exact Hs|]. apply mk_screen_rows in Hs. tauto.
-Qed.
-
-(* ---------------- subset / to_screen ---------------- *)
-Lemma select_mask_filter {A} (f : A -> bool) l : select (map f l) l = filter f l.
-Proof. induction l as [|x l IH]; cbn [map select filter]; [reflexivity|]. now rewrite IH. Qed.
-
-(* Screen.subset(v), v a bool array of the screen's length: the view whose rows are subset_of's *)
-Theorem src_screen_subset_is_subset_of : forall (t : Z) (p : screen) (v : bvec), length v = screen_size p ->
-  exists w, src_screen_subset (t, p) (true, v) = Ok w /\ view_rows w = subset_of (s_rows p) v /\
-            v_tag w = t /\ v_parent w = p /\ v_sel w = v /\ view_ok w.
-Proof.
-  intros t p v H. rewrite src_screen_subset_is_model. cbn [fst snd]. rewrite (screen_subset_ok t p v H).
-  eexists. split; [reflexivity|]. unfold view_rows, subset_of, view_ok. cbn [v_sel v_parent v_tag]. auto.
-Qed.
-
-(* ScreenSubset.to_screen() on a view of a valid screen: never refused; the new screen's rows are the selected rows
-   (Retro.to_screen is the identity on them), and it is a fresh screen of the parent's arity and control name *)
-Theorem src_to_screen_is_retro_to_screen : forall v : view, screen_valid (v_parent v) ->
-  exists s, src_to_screen v = Ok s /\ s_rows s = Retro.to_screen (subset_of (s_rows (v_parent v)) (v_sel v)) /\
-            fresh_screen s /\ s_arity s = s_arity (v_parent v) /\ s_ctrl s = s_ctrl (v_parent v).
-Proof.
-  intros v Hv. rewrite src_to_screen_is_model. destruct (to_screen_total v Hv) as (s & Hs). exists s. split; [exact Hs|].
-  pose proof (mk_screen_fresh _ _ _ _ Hs) as Hf. apply to_screen_rows in Hs. destruct Hs as (H1 & H2 & H3 & _).
-  unfold Retro.to_screen, subset_of. rewrite H1. auto.
-Qed.
-
-(* ---------------- subset_unobserved / subset_observed ---------------- *)
-Lemma existsb_id_map_filter {A} (f : A -> bool) l : existsb (fun b : bool => b) (map f l) = negb (is_nil (filter f l)).
-Proof. induction l as [|x l IH]; cbn [map existsb filter]; [reflexivity|]. destruct (f x); [reflexivity | exact IH]. Qed.
-
-Lemma is_nil_same {A} (l : list A) : PyRt.is_nil l = Retro.is_nil l.
-Proof. destruct l; reflexivity. Qed.
-
-Theorem src_subset_unobserved_is_retro : forall (t : Z) (p : screen), screen_wf p ->
-  exists o, src_subset_unobserved (t, p) = Ok o /\ option_map view_rows o = Retro.subset_unobserved (s_rows p) /\
-            (forall w, o = Some w -> v_tag w = t /\ v_parent w = p /\ view_ok w).
-Proof.
-  intros t p (_ & _ & HR & _). rewrite src_subset_unobserved_is_model. cbn [fst snd].
-  unfold Views.subset_unobserved, Retro.subset_unobserved, unobserved, screen_mask. rewrite map_map, existsb_id_map_filter.
-  destruct (filter (fun r => negb (r_mask r)) (s_rows p)) as [|r0 rest] eqn:E; cbn [PyRt.is_nil Retro.is_nil negb opt_result].
-  - exists None. repeat split; discriminate.
-  - rewrite screen_subset_ok by (now rewrite map_length). cbn [res_bind]. eexists. split; [reflexivity|].
-    cbn [option_map]. unfold view_rows. cbn [v_sel v_parent]. rewrite select_mask_filter, E. split; [reflexivity|].
-    intros w [= <-]. unfold view_ok. cbn [v_sel v_parent v_tag]. now rewrite map_length.
-Qed.
-
-Theorem src_subset_observed_is_retro : forall (t : Z) (p : screen), screen_wf p ->
-  exists o, src_subset_observed (t, p) = Ok o /\ option_map view_rows o = Retro.subset_observed (s_rows p) /\
-            (forall w, o = Some w -> v_tag w = t /\ v_parent w = p /\ view_ok w).
-Proof.
-  intros t p (_ & _ & HR & _). rewrite src_subset_observed_is_model. cbn [fst snd].
-  unfold Views.subset_observed, Retro.subset_observed, observed, screen_mask. rewrite existsb_id_map_filter.
-  destruct (filter r_mask (s_rows p)) as [|r0 rest] eqn:E; cbn [PyRt.is_nil Retro.is_nil negb opt_result].
-  - exists None. repeat split; discriminate.
-  - rewrite screen_subset_ok by (now rewrite map_length). cbn [res_bind]. eexists. split; [reflexivity|].
-    cbn [option_map]. unfold view_rows. cbn [v_sel v_parent]. rewrite select_mask_filter, E. split; [reflexivity|].
-    intros w [= <-]. unfold view_ok. cbn [v_sel v_parent v_tag]. now rewrite map_length.
-Qed.
-
-(* ---------------- is_observed ---------------- *)
-(* screen.is_observed (C13_INITIAL_WRAPPER: `forallb r_mask`) and plate.is_observed (C11_BALANCED_HOLDOUT: [vec_observed]) *)
-Theorem src_is_observed_is_retro :
-  (forall s : pyscreen, src_screen_is_observed s = Ok (forallb r_mask (s_rows (snd s)))) /\
-  (forall v : view, src_view_is_observed v = Ok (vec_observed (v_sel v) (s_rows (v_parent v)))).
-Proof.
-  split; [intros s; exact (proj1 (src_screen_props_are_model s))|].
-  intros v. rewrite (proj1 (proj2 (src_view_props_are_model v))). unfold view_is_observed, view_mask, vec_observed.
-  now rewrite select_map, forallb_map.
-Qed.
-
-(* ---------------- unique_sample_ids / n_unique_samples ---------------- *)
-(* on a screen whose sample ids are fresh (any to_screen() / combine result - what every generator and smoother is handed):
-   the unique sample ids are 0 .. k-1, k the number of distinct sample names; id j stands for the j-th name of
-   [sample_names] (the list the Retro vocabulary iterates over instead): the rows with sample id j are the rows of that sample *)
-Theorem src_unique_sample_ids_are_sample_names : forall s : pyscreen, sample_ids_fresh (snd s) ->
-  let names := sample_names (s_rows (snd s)) in
-  src_screen_unique_sample_ids s = Ok (map Z.of_nat (seq 0 (length names))) /\
-  src_screen_n_unique_samples s = Ok (zlen names) /\
-  (forall j, j < length names ->
-     map (fun x => (x =? Z.of_nat j)%Z) (s_sids (snd s)) = map (in_sample (nth j names [])) (s_rows (snd s))).
-Proof.
-  intros s (m & Hm) names. pose proof (fresh_ids_are_ranks _ _ _ _ Hm) as Hr.
-  destruct (src_screen_props_are_model s) as (_ & _ & H3 & H4 & _). rewrite H3, H4. unfold screen_unique_sids.
-  unfold names, sample_names. set (sn := map r_sample (s_rows (snd s))) in *. rewrite Hr.
-  pose proof (ranks_sorted_unique sn) as Hs. cbv zeta in Hs. rewrite Hs.
-  split; [reflexivity|]. split; [unfold zlen; now rewrite map_length, seq_length|].
-  intros j Hj. pose proof (rank_eqb_name sn j) as He. cbv zeta in He. rewrite He by exact Hj.
-  unfold sn. rewrite map_map. reflexivity.
-Qed.
-
-(* ---------------- plate.unique_sample_ids: the ranks of plate_unique_samples ---------------- *)
-(* ranks in a strictly sorted list are strictly monotone *)
-Lemma rank_monotone (su : list name) : SSorted name_cmp su -> forall a b, In a su -> In b su ->
-  name_cmp a b = Lt -> index_of a su < index_of b su.
-Proof.
-  induction su as [|y su IH]; intros HS a b Ha Hb Hlt; [destruct Ha|].
-  inversion HS as [|? ? HS' Hall]; subst. rewrite Forall_forall in Hall. cbn [index_of].
-  destruct (name_eqb a y) eqn:Ea.
-  - apply name_eqb_eq in Ea. subst a. destruct (name_eqb b y) eqn:Eb; [|lia].
-    apply name_eqb_eq in Eb. subst b. exfalso. exact (lt_irrefl name_cmp name_cmp_spec y Hlt).
-  - destruct Ha as [->|Ha]; [rewrite name_eqb_refl in Ea; discriminate|].
-    destruct (name_eqb b y) eqn:Eb.
-    + apply name_eqb_eq in Eb. subst b. exfalso. apply (lt_irrefl name_cmp name_cmp_spec a).
-      eapply (cmp_trans _ name_cmp_spec); [exact Hlt | exact (Hall a Ha)].
-    + destruct Hb as [->|Hb]; [rewrite name_eqb_refl in Eb; discriminate|]. specialize (IH HS' a b Ha Hb Hlt). lia.
-Qed.
-
-Lemma map_rank_sorted (su l : list name) : SSorted name_cmp su -> (forall x, In x l -> In x su) -> SSorted name_cmp l ->
-  SSorted Z.compare (map (rank_in su) l).
-Proof.
-  intros HS Hin Hl. induction Hl as [|a l Hl' IH Hall]; cbn [map]; [constructor|].
-  constructor; [apply IH; intros x Hx; apply Hin; now right|].
-  rewrite Forall_forall in *. intros z Hz. apply in_map_iff in Hz. destruct Hz as (b & <- & Hb).
-  unfold C01Sort.lt, rank_in. apply Z.compare_lt_iff. apply Nat2Z.inj_lt.
-  apply rank_monotone; [exact HS | apply Hin; now left | apply Hin; now right | exact (Hall b Hb)].
-Qed.
-
-(* np.unique of ranks = ranks of np.unique of names *)
-Lemma sort_uniq_ranks (su l : list name) : SSorted name_cmp su -> (forall x, In x l -> In x su) ->
-  sort_uniq Z.compare (map (rank_in su) l) = map (rank_in su) (sort_uniq name_cmp l).
-Proof.
-  intros HS Hin.
-  rewrite <- (sort_uniq_of_sorted Z.compare Zcmp_spec (map (rank_in su) (sort_uniq name_cmp l))).
-  - apply (sort_uniq_ext Z.compare Zcmp_spec). intros z. rewrite !in_map_iff.
-    split; intros (n & Hz & Hn); exists n; (split; [exact Hz|]); now apply (sort_uniq_In name_cmp name_cmp_spec).
-  - apply map_rank_sorted; [exact HS | | apply (sort_uniq_sorted name_cmp name_cmp_spec)].
-    intros x Hx. apply Hin. exact (proj1 (sort_uniq_In name_cmp name_cmp_spec l x) Hx).
-Qed.
-
-Lemma In_vselect {A} sel (l : list A) x : In x (vselect sel l) -> In x l.
-Proof. rewrite <- select_vselect. apply In_select. Qed.
-
-(* plate.unique_sample_ids of a plate of a screen with fresh sample ids: the ranks (among the screen's sorted sample names) of
-   [plate_unique_samples] - so `len(...) != 1` and `...[0]` in _get_plate_sample_id speak of the same sample *)
-Theorem src_view_unique_sample_ids_are_plate_unique_samples : forall v : view, sample_ids_fresh (v_parent v) ->
-  src_view_unique_sample_ids v
-  = Ok (map (rank_in (sample_names (s_rows (v_parent v)))) (plate_unique_samples (v_sel v) (s_rows (v_parent v)))).
-Proof.
-  intros v (m & Hm). destruct (src_view_props_are_model v) as (_ & _ & _ & H4 & _). rewrite H4. f_equal.
-  unfold view_unique_sids, view_sids, plate_unique_samples, sample_names.
-  rewrite (fresh_ids_are_ranks _ _ _ _ Hm), !select_map, select_vselect.
-  apply sort_uniq_ranks; [apply (sort_uniq_sorted name_cmp name_cmp_spec)|].
-  intros x Hx. apply (sort_uniq_In name_cmp name_cmp_spec). apply in_map_iff in Hx. destruct Hx as (r & <- & Hr).
-  apply in_map. eapply In_vselect. exact Hr.
-Qed.
+   This file only collects the pieces Proofs/C13SourceHelpers_<Piece>.v: one per primitive (or per group stated together in
+   Props/C11.v / Props/C13.v), each importing the link of the one data.py helper it speaks of (a piece of Proofs/C14Source.v /
+   C14SourceHelpers.v), so that C11 and C13 each depend on the translations of the helpers THEIR primitives are, not on all. *)
+From Batchie Require Export Proofs.C13SourceHelpers_Base Proofs.C13SourceHelpers_Plates Proofs.C13SourceHelpers_Order Proofs.C13SourceHelpers_Merge
+  Proofs.C13SourceHelpers_Combine Proofs.C13SourceHelpers_Subset Proofs.C13SourceHelpers_SubsetObserved Proofs.C13SourceHelpers_Observed
+  Proofs.C13SourceHelpers_SampleIds Proofs.C13SourceHelpers_PlateSampleIds.
